@@ -24,6 +24,7 @@ import (
 	"encoding/hex"
 	"fmt"
 	"math/big"
+	"os"
 	"runtime/debug"
 	"sort"
 	"strings"
@@ -132,6 +133,11 @@ type History struct {
 	Batches  []int        `json:"batches,omitempty"` // sizes of the InsertChain batches on B (default: 1 each)
 	// the plain chain_makers path (no staking module): transfers and calls only
 	Plain bool `json:"plain,omitempty"`
+	// hand the fork to the side-chain import path without its blocks having been
+	// stored (without state) beforehand
+	SideRaw bool `json:"side_raw,omitempty"`
+	// number of blocks node D imports the ordinary way before the rest arrives as a fork
+	SideFrom int `json:"side_from,omitempty"`
 }
 
 // ---- observations -----------------------------------------------------------
@@ -213,6 +219,11 @@ type BlockObs struct {
 	HeadMovedDiff string      `json:"-"`
 	TamperAccepted []string   `json:"-"`
 	TamperRejected int        `json:"-"`
+	CarriedDiff    []string   `json:"-"` // one StateDB carried across the blocks of a segment: differences to the fresh execution
+	Incoherent     []string   `json:"-"` // object cache of the carried StateDB versus its own tries
+	SideErr        string     `json:"-"` // error of the real side-chain import path (node D), reported on the first block
+	SideSkipped    bool       `json:"-"`
+	SideLen        int        `json:"-"`
 	Submitted      int        `json:"-"`
 }
 
@@ -233,6 +244,48 @@ func (e *fakeEngine) Seal(chain consensus.ChainReader, block *types.Block, stop 
 	return block, nil
 }
 
+// uconEngine makes the fake engine satisfy consensus.Ucon so that the REAL
+// side-chain import path (BlockChain.insertSidechain -> verifyAllSideChainBlocks:
+// ONE StateDB carried across all blocks of the fork) can be driven: header
+// verification answers ErrExistCanonical for the first header of the next
+// InsertChain call when sideOnce is set, which is how insertChain enters that path.
+type uconEngine struct {
+	*fakeEngine
+	sideOnce bool
+}
+
+func (e *uconEngine) HandleMsg(data []byte, receivedAt time.Time) error { return nil }
+func (e *uconEngine) NewChainHead(block *types.Block)                  {}
+func (e *uconEngine) GetLookBackBlockNumber(cp *params.CaravelParams, num *big.Int, lbType params.LookBackType) *big.Int {
+	lb := uint64(2)
+	if cp != nil && cp.StakeLookBack > 0 {
+		lb = cp.StakeLookBack
+	}
+	if num.Uint64() > lb {
+		return new(big.Int).SetUint64(num.Uint64() - lb)
+	}
+	return new(big.Int)
+}
+func (e *uconEngine) VerifySideChainHeader(cp *params.CaravelParams, seedHeader *types.Header, vldReader state.ValidatorReader, certHeader *types.Header, certVldReader state.ValidatorReader, block *types.Block, parents []*types.Block) error {
+	return nil
+}
+func (e *uconEngine) VerifyAcHeader(chain consensus.ChainReader, acHeader *types.Header, verifiedAcParents []*types.Header) error {
+	return nil
+}
+func (e *uconEngine) VerifyHeaders(chain consensus.ChainReader, headers []*types.Header, seals []bool) (chan<- struct{}, <-chan error) {
+	abort := make(chan struct{}, 1)
+	results := make(chan error, len(headers))
+	for i := range headers {
+		if i == 0 && e.sideOnce {
+			e.sideOnce = false
+			results <- consensus.ErrExistCanonical
+		} else {
+			results <- nil
+		}
+	}
+	return abort, results
+}
+
 type backend struct {
 	bc   *core.BlockChain
 	pool *core.TxPool
@@ -247,6 +300,7 @@ type Node struct {
 	bc   *core.BlockChain
 	stk  *staking.Staking
 	eng  *fakeEngine
+	ucon *uconEngine
 	mux  *event.TypeMux
 }
 
@@ -272,7 +326,7 @@ type World struct {
 	penalty  common.Address
 	uni      []common.Address
 	ids      map[common.Address]int64
-	A, B, C  *Node
+	A, B, C, D *Node
 	be       *backend
 	worker   *miner.VerifWorkerC06
 	pr       *probe
@@ -419,6 +473,7 @@ func newWorld(h *History) *World {
 	w.A = w.newNode("A", false)
 	w.B = w.newNode("B", false)
 	w.C = w.newNode("C", true)
+	w.D = w.newNode("D", false)
 	w.be = &backend{bc: w.A.bc}
 	w.worker = miner.VerifNewWorkerC06(w.A.eng, w.be, w.A.mux)
 	return w
@@ -504,7 +559,12 @@ func (w *World) newNode(name string, probes bool) *Node {
 	n := &Node{name: name, db: youdb.NewMemDatabase(), mux: new(event.TypeMux)}
 	w.writeGenesis(n.db)
 	n.eng = &fakeEngine{Solo: solo.NewSolo()}
-	bc, err := core.NewBlockChain(n.db, n.eng, n.mux, params.ArchiveNode, local.FakeDetailDB())
+	var eng consensus.Engine = n.eng
+	if name == "D" {
+		n.ucon = &uconEngine{fakeEngine: n.eng}
+		eng = n.ucon
+	}
+	bc, err := core.NewBlockChain(n.db, eng, n.mux, params.ArchiveNode, local.FakeDetailDB())
 	if err != nil {
 		panic(err)
 	}
@@ -525,7 +585,7 @@ func (w *World) newNode(name string, probes bool) *Node {
 }
 
 func (w *World) stop() {
-	for _, n := range []*Node{w.A, w.B, w.C} {
+	for _, n := range []*Node{w.A, w.B, w.C, w.D} {
 		if n != nil && n.bc != nil {
 			n.bc.Stop()
 		}
@@ -1094,6 +1154,8 @@ func runPlain(h *History, reps int) []*BlockObs {
 		return blocks[i], o
 	})
 	w.headMoved(obs)
+	w.carried(obs)
+	w.sideChain(obs)
 	return obs
 }
 
@@ -1126,5 +1188,171 @@ func (w *World) tamper(blk *types.Block, o *BlockObs) {
 		o.TamperAccepted = append(o.TamperAccepted, f)
 	} else {
 		o.TamperRejected++
+	}
+}
+
+// carried re-executes the imported chain on node C the way
+// BlockChain.verifyAllSideChainBlocks does: ONE StateDB is opened on the parent
+// of a segment and carried across all its blocks (ResetStakingTrieOnNewPeriod,
+// Process, ValidateState; no fresh state.New in between).  The verdict must be
+// the one of the fresh-per-block execution, and after every block the object
+// cache of the carried StateDB must agree with its own tries.
+func (w *World) carried(obs []*BlockObs) {
+	i := 0
+	for _, size := range append(append([]int{}, w.h.Batches...), len(w.blocks)) {
+		if size <= 0 {
+			size = 1
+		}
+		if i >= len(w.blocks) || i >= len(obs) || !obs[i].Imported {
+			return
+		}
+		end := i + size
+		if end > len(w.blocks) {
+			end = len(w.blocks)
+		}
+		w.carrySegment(obs, i, end)
+		i = end
+	}
+}
+
+func (w *World) carrySegment(obs []*BlockObs, from, to int) {
+	first := w.blocks[from]
+	n := w.C
+	parent := n.bc.GetBlock(first.ParentHash(), first.NumberU64()-1)
+	if parent == nil {
+		return
+	}
+	st, err := n.bc.StateAt(parent.Root(), parent.ValRoot(), parent.StakingRoot())
+	if err != nil {
+		obs[from].CarriedDiff = append(obs[from].CarriedDiff, err.Error())
+		return
+	}
+	for k := from; k < to && k < len(obs); k++ {
+		blk, o := w.blocks[k], obs[k]
+		if !o.Imported || len(o.ReexecDiff) > 0 {
+			return
+		}
+		stop := false
+		func() {
+			defer func() {
+				if r := recover(); r != nil {
+					o.CarriedDiff = append(o.CarriedDiff, fmt.Sprint("panic: ", r))
+					stop = true
+				}
+			}()
+			yp, err := n.bc.VersionForRound(blk.NumberU64())
+			if err != nil {
+				o.CarriedDiff = append(o.CarriedDiff, err.Error())
+				stop = true
+				return
+			}
+			core.ResetStakingTrieOnNewPeriod(yp.StakingTrieFrequency, blk.NumberU64(), st)
+			res, err := n.bc.Processor().Process(yp, blk, st, vm.LocalConfig{}, local.FakeRecorder())
+			if err != nil {
+				o.CarriedDiff = append(o.CarriedDiff, "process: "+err.Error())
+				stop = true
+				return
+			}
+			if err := n.bc.Validator().ValidateState(blk, parent, st, res.Recs, res.UsedGas); err != nil {
+				o.CarriedDiff = append(o.CarriedDiff, "validate: "+err.Error())
+				stop = true
+				return
+			}
+			if !sameRecs(recObs(res.Recs), o.Recs) {
+				o.CarriedDiff = append(o.CarriedDiff, "receipts/logs differ from the builder's")
+			}
+			if !w.h.Plain {
+				o.Incoherent = state.VerifStakingCacheIncoherentC06(st)
+			}
+		}()
+		if stop {
+			return
+		}
+		parent = blk
+	}
+}
+
+// sideChain: node D imports a prefix of the built chain the ordinary way and
+// receives the rest through BlockChain.InsertChain with the first header
+// answered ErrExistCanonical: the real insertSidechain /
+// verifyAllSideChainBlocks path (ONE StateDB carried across the fork), then the
+// re-import.  The split is moved forward until the look-back block of every
+// evidence confirmed inside the fork lies on D's canonical prefix (signer
+// resolution reads the local canonical chain; with the shipped StakeLookBack of
+// 128 a fork would have to be deeper than that to matter).
+func (w *World) sideChain(obs []*BlockObs) {
+	n := 0
+	for n < len(w.blocks) && n < len(obs) && obs[n].Imported && len(obs[n].ReexecDiff) == 0 {
+		n++
+	}
+	if n == 0 {
+		return
+	}
+	k := w.h.SideFrom
+	if k < 0 || k >= n {
+		k = 0
+	}
+	lb := w.yp.StakeLookBack
+	for moved := true; moved; {
+		moved = false
+		for i := k; i < n; i++ {
+			if len(w.blocks[i].Header().SlashData) == 0 {
+				continue
+			}
+			num := w.blocks[i].NumberU64()
+			if num-1 > lb && num-1-lb > uint64(k) {
+				k = int(num - 1 - lb)
+				moved = true
+			}
+		}
+	}
+	if k >= n {
+		obs[0].SideSkipped = true
+		return
+	}
+	defer func() {
+		if r := recover(); r != nil {
+			obs[0].SideErr = fmt.Sprint("panic: ", r)
+			for _, ln := range strings.Split(string(debug.Stack()), "\n") {
+				if i := strings.Index(ln, "go-youchain/staking."); i >= 0 && !strings.Contains(ln, "EndBlock") {
+					f := ln[i+len("go-youchain/staking."):]
+					if j := strings.Index(f, "("); j > 0 {
+						f = f[:j]
+					}
+					obs[0].SideErr += " @" + f
+					break
+				}
+			}
+			if os.Getenv("C06_DEBUG") != "" {
+				fmt.Fprintln(os.Stderr, string(debug.Stack()))
+			}
+			w.D.bc = nil // its wait group and chain mutex are stuck now: never Stop() it
+		}
+	}()
+	if k > 0 {
+		if err := w.D.bc.InsertChain(types.Blocks(w.blocks[:k])); err != nil {
+			obs[0].SideErr = "prefix: " + err.Error()
+			return
+		}
+	}
+	obs[0].SideLen = n - k
+	if !w.h.SideRaw {
+		// the fork's blocks have been seen before: stored without state
+		for _, b := range w.blocks[k:n] {
+			if err := w.D.bc.WriteBlockWithoutState(b); err != nil {
+				obs[0].SideErr = err.Error()
+				return
+			}
+			if os.Getenv("C06_SIDE_TXLOOKUP") != "" {
+				rawdb.WriteTxLookupEntries(w.D.db, b)
+			}
+		}
+	}
+	w.D.ucon.sideOnce = true
+	err := w.D.bc.InsertChain(types.Blocks(w.blocks[k:n]))
+	if err != nil {
+		obs[0].SideErr = err.Error()
+	} else if w.D.bc.CurrentBlock().Hash() != w.blocks[n-1].Hash() {
+		obs[0].SideErr = fmt.Sprintf("side-chain import ended at block %d instead of %d", w.D.bc.CurrentBlock().NumberU64(), w.blocks[n-1].NumberU64())
 	}
 }
